@@ -82,6 +82,13 @@ type solveOpts struct {
 
 func runSolver(ctx context.Context, sd solverDef, file string, timeoutS int) (result, output string, secs float64) {
 	args := sd.args(file, timeoutS)
+	// at most one solver process per core: queries wait here, not in the solver
+	select {
+	case procSem <- struct{}{}:
+		defer func() { <-procSem }()
+	case <-ctx.Done():
+		return "unknown", "cancelled", 0
+	}
 	cctx, cancel := context.WithTimeout(ctx, time.Duration(timeoutS+2)*time.Second)
 	defer cancel()
 	t0 := time.Now()
@@ -112,6 +119,10 @@ func (c *Ctx) solve(o *Obligation, opts solveOpts) {
 	if o.Static {
 		return
 	}
+	if o.Expect == "sat" && opts.timeoutS > 8 && !opts.all {
+		// reachability probes are best-effort in the quick tier
+		opts.timeoutS = 8
+	}
 	mv := c.modelVars()
 	text := c.smtText(o, mv)
 	o.SMT = text
@@ -125,18 +136,45 @@ func (c *Ctx) solve(o *Obligation, opts solveOpts) {
 	type ans struct {
 		solver, result, output string
 		secs                   float64
+		inst                   bool
 	}
-	ch := make(chan ans, len(solvers))
+	// second variant: own skolemisation + instantiation, quantifier-free
+	instFile := ""
+	if o.Expect != "sat" {
+		if it := c.instantiatedText(o, nil); it != "" {
+			instFile = strings.TrimSuffix(file, ".smt2") + ".inst.smt2"
+			os.WriteFile(instFile, []byte(it), 0o644)
+			defer os.Remove(instFile)
+			if d := os.Getenv("GOVC_KEEPINST"); d != "" {
+				os.MkdirAll(d, 0o755)
+				os.WriteFile(filepath.Join(d, filepath.Base(instFile)), []byte(it), 0o644)
+			}
+		}
+	}
+	nruns := len(solvers)
+	if instFile != "" {
+		nruns += len(solvers)
+	}
+	ch := make(chan ans, nruns)
 	for _, sd := range solvers {
 		sd := sd
 		go func() {
 			r, out, s := runSolver(ctx, sd, file, opts.timeoutS)
-			ch <- ans{sd.name, r, out, s}
+			ch <- ans{sd.name, r, out, s, false}
 		}()
+		if instFile != "" {
+			go func() {
+				r, out, s := runSolver(ctx, sd, instFile, opts.timeoutS)
+				if r == "sat" {
+					r = "unknown" // hypotheses were dropped: a model of the variant means nothing
+				}
+				ch <- ans{sd.name + "+inst", r, out, s, true}
+			}()
+		}
 	}
 	var got []ans
 	var final *ans
-	for i := 0; i < len(solvers); i++ {
+	for i := 0; i < nruns; i++ {
 		a := <-ch
 		got = append(got, a)
 		if a.result == "sat" || a.result == "unsat" {
